@@ -47,6 +47,9 @@ pub struct GenCfg {
     pub wild_ranges: bool,
     /// comparison operators used in conditions
     pub ops: Vec<&'static str>,
+    /// keep break/continue at the top level of the generated body (bodies of partials that are
+    /// included from inside a caller's loop)
+    pub top_level_interrupts: bool,
 }
 
 impl GenCfg {
@@ -80,6 +83,7 @@ impl GenCfg {
             coll_names: NAMES.to_vec(),
             wild_ranges: true,
             ops: vec!["==", "!=", "<>", "<", ">", "<=", ">=", "contains"],
+            top_level_interrupts: false,
         }
     }
 }
@@ -151,6 +155,10 @@ pub fn filters(cfg: &GenCfg) -> BoxedStrategy<Vec<Flt>> {
 
 pub fn atom(cfg: &GenCfg) -> BoxedStrategy<Atom> {
     let e = expr(cfg);
+    if cfg.ops.is_empty() {
+        // bare (lenient) conditions only
+        return e.prop_map(Atom::Truthy).boxed();
+    }
     prop_oneof![
         2 => e.clone().prop_map(Atom::Truthy),
         3 => (e.clone(), proptest::sample::select(cfg.ops.clone()), e).prop_map(|(l, op, r)| Atom::Cmp(l, op.to_string(), r)),
@@ -361,10 +369,11 @@ pub fn nodes(cfg: &GenCfg, max_top: usize) -> BoxedStrategy<Vec<Node>> {
         }
         proptest::strategy::Union::new_weighted(v).boxed()
     });
+    let top = cfg.top_level_interrupts;
     proptest::collection::vec(node, 1..=max_top)
-        .prop_map(|v| {
+        .prop_map(move |v| {
             let mut budget = MAX_NODES;
-            fix_interrupts(normalize(prune(v, &mut budget)), false)
+            fix_interrupts(normalize(prune(v, &mut budget)), top)
         })
         .boxed()
 }
@@ -437,4 +446,47 @@ pub fn fix_interrupts(nodes: Vec<Node>, in_for: bool) -> Vec<Node> {
         })
         .collect();
     normalize(out)
+}
+
+
+/// Apply `f` to every include/render node (recursively); `f` returns the replacement nodes.
+pub fn map_calls(nodes: Vec<Node>, f: &mut dyn FnMut(Node) -> Vec<Node>) -> Vec<Node> {
+    let mut out = Vec::new();
+    for n in nodes {
+        match n {
+            Node::Include { .. } | Node::Render { .. } => out.extend(f(n)),
+            Node::Capture { name, body, open, close } => out.push(Node::Capture { name, body: map_calls(body, f), open, close }),
+            Node::If { arms, else_, close } => {
+                let arms = arms.into_iter().map(|(c, b, t)| (c, map_calls(b, f), t)).collect();
+                let else_ = else_.map(|(b, t)| (map_calls(b, f), t));
+                out.push(Node::If { arms, else_, close })
+            }
+            Node::Unless { cond, body, else_, open, close } => {
+                let body = map_calls(body, f);
+                let else_ = else_.map(|(b, t)| (map_calls(b, f), t));
+                out.push(Node::Unless { cond, body, else_, open, close })
+            }
+            Node::Case { target, whens, else_, open, close } => {
+                let whens = whens.into_iter().map(|w| When { body: map_calls(w.body.clone(), f), ..w }).collect();
+                let else_ = else_.map(|(b, t)| (map_calls(b, f), t));
+                out.push(Node::Case { target, whens, else_, open, close })
+            }
+            Node::For { var, coll, limit, offset, reversed, body, else_, open, close } => {
+                let body = map_calls(body, f);
+                let else_ = else_.map(|(b, t)| (map_calls(b, f), t));
+                out.push(Node::For { var, coll, limit, offset, reversed, body, else_, open, close })
+            }
+            Node::TableRow { var, coll, cols, limit, offset, body, open, close } => out.push(Node::TableRow { var, coll, cols, limit, offset, body: map_calls(body, f), open, close }),
+            Node::IfChanged { body, open, close } => out.push(Node::IfChanged { body: map_calls(body, f), open, close }),
+            other => out.push(other),
+        }
+    }
+    out
+}
+
+pub fn call_target(n: &Node) -> Option<String> {
+    match n {
+        Node::Include { name: Expr::Lit(Lit::Str(s, _)), .. } | Node::Render { name: Expr::Lit(Lit::Str(s, _)), .. } => Some(s.clone()),
+        _ => None,
+    }
 }
